@@ -347,6 +347,21 @@ def rule_pandas_all(ctx):
                               f"fetch_pandas_all returns `{tagof(v)[:80]}`, not the whole result table: after some rows were fetched row-wise the "
                               f"DataFrame no longer agrees with rowcount and the rows of the result")
     ctx.floor("C05.f paths", n, 2)
+    # an open result set — with or without rows — is never answered with "no open result set"
+    nn = 0
+    for method, args in (("fetchone", []), ("fetchmany", [Sym("SIZE", typ="int", truthy=True)]), ("fetchall", []), ("fetch_pandas_all", [])):
+        if not prog.has_fn("cursor", f"FakeSnowflakeCursor.{method}"):
+            continue
+        for p, cur in _run(prog, method, args, _table, Const(None)):
+            nn += 1
+            ok = p.outcome == "return"
+            empty = [t for t, v in p.assumed if t.startswith("nonempty(TABLE") and v is False]
+            ctx.ob("C05.f", f"{method} with an open result set returns ({'empty' if empty else 'any'} table)", ok, loc)
+            if not ok:
+                ctx.violation("C05.f", "cursor", f"FakeSnowflakeCursor.{method}", f"{method} raises with an open result set", loc,
+                              f"{method} raises {p.value.cls} although a result set is open"
+                              f"{' (decided by the table being empty: a zero-row result is still a result set)' if empty else ''}")
+    ctx.floor("C05.f open-result-set paths", nn, 4)
 
 
 RULES = [
